@@ -206,6 +206,16 @@ EXTRA7 = {
     "C17": " listen() that returns before a stop was requested is reported (L_ListensUntilStopRequested).",
     "C19": " The mock service is built from the published .proto files kept with the harness.",
 }
+EXTRA7.update({k: EXTRA7.get(k, "") + v for k, v in {
+    "C02": " Secrets that differ only by surrounding whitespace are different secrets.",
+    "C03": " Locales whose language code merely starts like one that has a table (fra_DE, dex).",
+    "C04": " Listener stage: panics of connection tasks under every kind of PROXY header are counted (L_NoPanicInConnectionTasks).",
+    "C06": " A 20 KB Status Response (three-byte length prefix); the write-stall schedules.",
+    "C08": " A client frame of exactly 128 bytes cut after its first prefix byte.",
+    "C10": " Handshake hosts with a trailing dot / a NUL-separated marker; profiles with two properties of the same name.",
+    "C12": " A session adapter configured twice; logins that claim the id the service answers with, under changing names.",
+    "C17": " Shutdown with clients that never read a 2 MB status.",
+}.items()})
 for _k, _v in EXTRA7.items():
     EXTRA[_k] = EXTRA.get(_k, "") + _v
 
